@@ -127,11 +127,15 @@ def generate(report):
         shr = re.findall(r"value\s*>>=\s*(\d+)\s*;", exm)
         conds = re.findall(r"if\s+chunk\s*<\s*\(1\s*<<\s*(\d+)\)\s*\|\|\s*\(1\s*<<\s*(\d+)\)\s*-\s*chunk\s*<\s*\(1\s*<<\s*(\d+)\)\s*\{\s*0\s*\}\s*else\s*\{\s*1\s*\}", exm)
         xl = re.findall(r"for\s+j\s+in\s+0\.\.(\d+)", exm)
+        xh = re.findall(r"byte\s*\|=\s*bit\s*<<\s*\((\d+)\s*\+\s*j\)\s*;", exm)
+        xlo = re.findall(r"byte\s*\|=\s*bit\s*<<\s*j\s*;", exm)
+        if len(xh) != 1 or len(xlo) != 1:
+            raise Untranslatable("extract_msg bit placement")
         if (len(masks) != 2 or len(set(masks)) != 1 or len(shr) != 2 or len(set(shr)) != 1 or len(conds) != 2
                 or len(set(conds)) != 1 or conds[0][0] != conds[0][2] or len(xl) != 2 or len(set(xl)) != 1):
             raise Untranslatable("extract_msg shape")
-        out += "Definition LANE_MASK : Z := %d.\nDefinition EXTRACT_SHIFT : Z := %s.\nDefinition EXTRACT_THRESHOLD : Z := %d.\nDefinition EXTRACT_WRAP : Z := %d.\nDefinition EXTRACT_LANES : nat := %s.\n" % (
-            int(masks[0], 0), shr[0], 1 << int(conds[0][0]), 1 << int(conds[0][1]), xl[0])
+        out += "Definition LANE_MASK : Z := %d.\nDefinition EXTRACT_SHIFT : Z := %s.\nDefinition EXTRACT_THRESHOLD : Z := %d.\nDefinition EXTRACT_WRAP : Z := %d.\nDefinition EXTRACT_LANES : nat := %s.\nDefinition EXTRACT_HI_SHIFT : Z := %s.\n" % (
+            int(masks[0], 0), shr[0], 1 << int(conds[0][0]), 1 << int(conds[0][1]), xl[0], xh[0])
         # ---------------- KEM
         kem = find_in(src, r"pub mod kem\s*\{")
         _, _, dpm = find_fn(kem, "derive_public_matrix")
